@@ -464,6 +464,120 @@ def wl_subspaces(run, rng, idx):
         run.sample({"workload": "subspaces", "class": cls, "dimension": n, "ideal_basis": B})
 
 
+HP_CLASSES = ["integer-normal", "rescaled-dual-row", "scaled-isometry-image",
+              "integer-normal", "rescaled-all-rows", "scaled-isometry-image", "float32-normal"]
+
+
+def ideal_points_of_normal(rng, v, m):
+    """m ideal points (Klein unit vectors) of the hyperplane <v, x> = 0 for a
+    spacelike v = (v0, vs): e = (v0/|vs|^2) vs + sqrt(1 - v0^2/|vs|^2) w with w a
+    unit vector orthogonal to vs -- straight from the normal, independent of any
+    ideal basis."""
+    v = np.asarray(v, dtype=float)
+    v0, vs = v[0], v[1:]
+    n = len(vs)
+    q = float(vs @ vs)
+    out = []
+    for _ in range(m):
+        w = rng.normal(size=n)
+        w = w - (w @ vs) / q * vs
+        w = w / np.linalg.norm(w)
+        out.append(v0 / q * vs + math.sqrt(max(0.0, 1.0 - v0 * v0 / q)) * w)
+    return np.array(out)
+
+
+def wl_hyperplanes(run, rng, idx):
+    """Hyperplane objects by *representation class*: the same hyperplane can be
+    stored with any non-zero multiple of its spacelike (dual) row and of each
+    ideal row -- integer normals (not normalised in place like float buffers),
+    explicit (n+1)x(n+1) data with rescaled rows, images under Isometry(lambda*M)
+    (the same isometry for every lambda != 0, but the dual row is rescaled with
+    it), float32 normals.  The sphere reported in both models must contain the
+    hyperplane's ideal points: its own ideal basis (postcondition, also attached
+    to subclass overrides) and further ideal points computed from the normal the
+    case started from.  Seeded change C14-r5-1: a closed-form
+    Hyperplane.sphere_parameters valid for a Minkowski-unit dual row only."""
+    H = lib()
+    n = (2, 3, 4)[idx % 3]
+    cls = HP_CLASSES[(idx // 3) % len(HP_CLASSES)]
+    shape = [(), (), (4,), (2, 2)][(idx // 21) % 4]
+    through_origin = (idx // 7) % 8 == 5 and cls == "integer-normal"
+    base._ctx.pop("extra_ideal", None)
+
+    def normals(shp, integer):
+        out = np.empty(shp + (n + 1,))
+        for ind in np.ndindex(*shp):
+            for _ in range(500):
+                if integer:
+                    v = rng.integers(-4, 5, size=n + 1).astype(float)
+                    if through_origin:
+                        v[0] = 0.0
+                else:
+                    u = rh.rand_sphere(rng, n)
+                    v = np.concatenate([[rng.uniform(-0.8, 0.8)], u]) * rng.uniform(0.3, 3.0)
+                q = float(v[1:] @ v[1:])
+                # clearly spacelike, and the hyperplane's ideal boundary away from
+                # the half-space point at infinity e_1 (<v, (1, e_1)> = v_1 - v_0)
+                if q > 0 and q - v[0] ** 2 >= 0.2 * q and abs(v[1] - v[0]) >= 0.25 * math.sqrt(q):
+                    break
+            else:
+                v = np.array([0.0 if integer and through_origin else 1.0, 2.0] + [1.0] * (n - 1))
+            out[ind] = v
+        return out
+
+    integer = cls == "integer-normal"
+    V = normals(shape, integer)
+    M = np.eye(n + 1)
+    lam = 1.0
+    arg = V if shape == () else V[..., None, :]
+    case = {"workload": "hyperplanes", "class": cls, "dimension": n, "shape": list(shape),
+            "normal": V}
+    run.current_case = case
+    if cls == "integer-normal":
+        hp = H.Hyperplane(arg.astype(np.int64))
+    elif cls == "float32-normal":
+        hp = H.Hyperplane(arg.astype(np.float32))
+    elif cls in ("rescaled-dual-row", "rescaled-all-rows"):
+        data = np.array(H.Hyperplane(arg.copy()).proj_data, dtype=float)
+        scale = np.exp(rng.uniform(math.log(0.1), math.log(10.0), size=shape)) * \
+            rng.choice([-1.0, 1.0], size=shape)
+        data[..., 0, :] *= np.asarray(scale)[..., None]
+        if cls == "rescaled-all-rows":
+            rows = np.exp(rng.uniform(math.log(0.2), math.log(5.0), size=shape + (n,))) * \
+                rng.choice([-1.0, 1.0], size=shape + (n,))
+            data[..., 1:, :] *= rows[..., None]
+        case["dual_row_scale"] = scale
+        hp = H.Hyperplane(data)
+        if idx % 2 and shape != ():
+            hp = H.Hyperplane([H.Hyperplane(dd) for dd in data.reshape((-1,) + data.shape[-2:])])
+    else:
+        M = rh.rand_isometry(rng, n, tmax=0.8)
+        lam = float(rng.choice([3.0, -3.0, 0.4, -0.25, 7.5, -1.5]))
+        case["isometry_matrix"] = M
+        case["matrix_scale"] = lam
+        hp = H.Isometry(lam * M, column_vectors=True) @ H.Hyperplane(arg.copy())
+    if shape == ():
+        # further ideal points of the hyperplane, from the normal (moved by M)
+        E = ideal_points_of_normal(rng, V, 4)
+        X = rh.klein_to_proj(E) @ M.T
+        E = X[..., 1:] / X[..., :1]
+        if float(V[0]) != 0.0 or cls != "integer-normal":
+            base._ctx["extra_ideal"] = E
+    try:
+        for model in MODELS:
+            if model == "halfspace" and base._ctx.get("extra_ideal") is not None:
+                if np.min(rc.inf_distance(base._ctx["extra_ideal"])) < 0.1:
+                    base._ctx.pop("extra_ideal")
+            hp.sphere_parameters(sp(model))
+        base._ctx.pop("extra_ideal", None)
+        hp.boundary_sphere_parameters()
+    finally:
+        base._ctx.pop("extra_ideal", None)
+    run.note_class("hyperplanes", cls, n, shape, "through-origin" if through_origin else "generic")
+    if idx < 3:
+        run.sample(case)
+
+
 def wl_arc_utils(run, rng, idx):
     from geometry_tools import utils
     shape = [(), (1,), (7,), (2, 3)][idx % 4]
@@ -627,6 +741,7 @@ WORKLOADS = [
     Workload("subspaces", wl_subspaces, quick=240, thorough=7200),
     Workload("arc-utils", wl_arc_utils, quick=80, thorough=2400),
     Workload("histories", wl_histories, quick=48, thorough=1440),
+    Workload("hyperplanes", wl_hyperplanes, quick=84, thorough=2520),
 ]
 
 
